@@ -202,21 +202,29 @@ def run(ctx):
     # ... and records whose template lacks ANY of the elements the engine puts into a record (omit=<names>), alone and in
     # pairs, as the first, the second or the third record of a flow, followed by dumps and by an expiry scan whose
     # callback resets the statistics
+    import itertools
     names = ["flowType", "flowStartSeconds", "flowEndSeconds", "flowEndReason", "tcpState", "sourcePodName", "destinationPodName",
-             "sourceTransportPort", "protocolIdentifier", "sourceIPv4Address"] + \
+             "sourceTransportPort", "destinationTransportPort", "protocolIdentifier", "sourceIPv4Address", "destinationIPv4Address"] + \
             ["packetTotalCount", "packetDeltaCount", "octetTotalCount", "octetDeltaCount", "reversePacketTotalCount",
-             "reversePacketDeltaCount", "reverseOctetTotalCount", "reverseOctetDeltaCount"]
+             "reversePacketDeltaCount", "reverseOctetTotalCount", "reverseOctetDeltaCount"] + \
+            ["sourcePodNamespace", "sourceNodeName", "destinationNodeName", "destinationClusterIPv4", "destinationServicePort",
+             "ingressNetworkPolicyRuleAction", "egressNetworkPolicyRuleAction", "ingressNetworkPolicyRulePriority", "destinationClusterIPv6"]
     rng3 = random.Random(ctx.seed * 1000003 + 506)
-    combos = [[x] for x in names] + [rng3.sample(names, 2) for _ in range(40 if ctx.tier == "quick" else 400)]
+    pairs = [list(c) for c in itertools.combinations(names, 2)]
+    combos = [[x] for x in names] + (pairs if ctx.tier == "thorough" else rng3.sample(pairs, 60)) + \
+             [rng3.sample(names, 3) for _ in range(20 if ctx.tier == "quick" else 600)]
+    src, dst = AG.inter_src(2, 100, 101, [1] * 8), AG.inter_dst(2, 100, 101, [1] * 8)
     for om in combos:
         for pos in (0, 1, 2):
-            key, ft = rng3.choice([(1, 1), (2, 2), (3, 3)])
-            recs = []
-            for j in range(3):
-                o = ok.replace(" 1 1 ", " %d %d " % (key, ft), 1).replace(" 100 101 ", " 100 %d " % (101 + j), 1)
-                recs.append(o + (" omit=" + ",".join(om) if j == pos else ""))
-            crash_only.append(["agg new %d %d" % (A, I)] + recs[:2] + ["agg dump", recs[2], "agg dump", "agg adv %d" % (A + 1),
-                                                                   "agg scan - 1", "agg dump", "agg adv %d" % (I + 1), "agg scan - 0", "agg dump"])
+            # the flow: intra-node, to-external, or inter-node with the two nodes' records alternating (either node first)
+            for shape in (("intra", "sd", "ds", "ext") if ctx.tier == "thorough" else (rng3.choice(["intra", "ext"]), rng3.choice(["sd", "ds"]))):
+                recs = []
+                for j in range(3):
+                    o = {"intra": ok, "ext": ok.replace(" 1 1 ", " 3 3 ", 1), "sd": src if j % 2 == 0 else dst, "ds": dst if j % 2 == 0 else src}[shape]
+                    o = o.replace(" 100 101 ", " 100 %d " % (101 + j), 1)
+                    recs.append(o + (" omit=" + ",".join(om) if j == pos else ""))
+                crash_only.append(["agg new %d %d" % (A, I)] + recs[:2] + ["agg dump", recs[2], "agg dump", "agg adv %d" % (A + 1),
+                                                                       "agg scan - 1", "agg dump", "agg adv %d" % (I + 1), "agg scan - 0", "agg dump"])
     res = run_simple(ctx, cases, "C05", chk_filter=lambda op: True, stateful_chk=True,
                      chk_variant=lambda op: "agga" + op[3:],
                      signature=lambda c, oi, v, agrees: "C05:%s" % " ".join(v.split(" ")[:3]))
